@@ -37,7 +37,14 @@ func use[T signal.SignalTypes](b *signal.Buffer[T], a signal.Allocator) *signal.
 	for i := 0; i < full.Len(); i++ {
 		full.SetSample(i, vf.Any[T]("dirt"))
 	}
-	switch vf.Pick("use", 0, 4) {
+	switch vf.Pick("use", 0, 5) {
+	case 5: // reslice from frame 0 (shorter), then single samples up to a partly filled last frame
+		vf.Cover("use-shorter-slice-then-samples")
+		v := b.Slice(0, vf.Pick("to", 0, a.Length))
+		for i, n := 0, vf.Pick("partial", 1, a.Channels); i < n; i++ {
+			v.AppendSample(vf.Any[T]("dirt"))
+		}
+		return v
 	case 0: // written only
 		vf.Cover("use-write")
 	case 1: // single-sample appends (possibly beyond capacity: no-ops there)
